@@ -1669,7 +1669,7 @@ def to_awkward0(array, keep_layout=False):
                     "awkward0 has no equivalent of RegularArray; "
                     "try keep_layout=False" + ak._util.exception_suffix(__file__)
                 )
-            offsets = numpy.arange(0, (len(layout) + 1) * layout.size, layout.size)
+            offsets = numpy.arange(len(layout) + 1) * layout.size
             return awkward0.JaggedArray.fromoffsets(offsets, recurse(layout.content))
 
         elif isinstance(layout, ak.layout.ListArray32):
